@@ -849,7 +849,7 @@ public:
                      "getCategoryIndex is read as 0-based, like getCategory(i)/getProbability(i)/getBound(i)"};
     return i;
   }
-  long defaultRuns(Tier t) const override { return t == QUICK ? 8000 : 200000; }
+  long defaultRuns(Tier t) const override { return t == QUICK ? 12000 : 200000; }
 
   Plan generate(Rng& rng, Tier) const override {
     Plan p;
